@@ -395,39 +395,30 @@ fn build_eq_expr(
 
     // `Eq` is customized by `#[eq(...)]` or `#[ord(...)]`, but the derived `==` prefers
     // `#[partial_eq(...)]` and `#[partial_ord(...)]`: what it really compares has to be `Eq`.
-    let customized = [&cmp.eq, &cmp.ord]
-        .iter()
-        .any(|a| a.by.is_some() || a.key.is_some());
-    let preferred = |a: &HelperAttributeForCompareOp| -> Option<TokenStream> {
-        if !(customized && cmp.partial_eq_derived) {
-            return None;
+    // (Only the checked value changes, the bounds are those of `#[eq(...)]` and `#[ord(...)]`.)
+    let preferred = if cmp.partial_eq_derived {
+        [&cmp.partial_eq, &cmp.eq, &cmp.partial_ord, &cmp.ord]
+            .into_iter()
+            .find(|a| a.by.is_some() || a.key.is_some())
+    } else {
+        None
+    };
+    let checker = |a: &HelperAttributeForCompareOp| -> TokenStream {
+        let a = preferred.unwrap_or(a);
+        match &a.key {
+            Some(key) if a.by.is_none() => key.build_eq_checker(this.clone()),
+            _ => quote!(),
         }
-        if a.by.is_some() {
-            return Some(quote!());
-        }
-        a.key.as_ref().map(|key| key.build_eq_checker(this.clone()))
     };
 
-    if let Some(checker) = preferred(&cmp.partial_eq) {
-        return Ok(checker);
-    }
     cmp.eq.push_bounds_to(use_bounds, wcb);
-    if cmp.eq.by.is_some() {
-        return Ok(quote!());
-    }
-    if let Some(key) = &cmp.eq.key {
-        return Ok(key.build_eq_checker(this));
+    if cmp.eq.by.is_some() || cmp.eq.key.is_some() {
+        return Ok(checker(&cmp.eq));
     }
 
-    if let Some(checker) = preferred(&cmp.partial_ord) {
-        return Ok(checker);
-    }
     cmp.ord.push_bounds_to(use_bounds, wcb);
-    if cmp.ord.by.is_some() {
-        return Ok(quote!());
-    }
-    if let Some(key) = &cmp.ord.key {
-        return Ok(key.build_eq_checker(this));
+    if cmp.ord.by.is_some() || cmp.ord.key.is_some() {
+        return Ok(checker(&cmp.ord));
     }
 
     if let Some(bad) = cmp.bad_attr() {
